@@ -5,7 +5,9 @@ import (
 	"fmt"
 	"io"
 	"os"
+	"runtime"
 	"runtime/debug"
+	"sync"
 
 	"gitlab.com/gomidi/midi/v2/smf"
 
@@ -24,10 +26,10 @@ func init() {
 		Assumptions: []string{
 			"SMF 1.0 as transcribed in harness/ref/smf.go (encoder with choices, lenient decoder)",
 			"meta events are compared as (type, payload): the library re-encodes a non-minimal length canonically",
-			"known fixed-length meta events are generated with their spec length (tempo 3 bytes non-zero, etc.)",
+			"known fixed-length meta events are generated with their spec length (tempo 3 bytes, the value 0 included, etc.)",
 			"header length is 6 (statement)",
 		},
-		Require: []string{"many_unknown_chunk_files", "huge_unknown_chunk_files", "reads_with_eof_delivered_with_data", "files", "feat:running_status", "feat:padded_vlq", "feat:f0_without_f7", "feat:f7_packet", "feat:unknown_meta", "feat:long_payload", "feat:alien_before", "feat:alien_between", "feat:alien_after", "feat:smpte", "decoder_crosschecks", "events_compared", "messages_classified", "pipe_reads", "reads_with_log_option", "appends_to_read_messages", "files_with_more_than_65536_events", "files_with_tracks_of_hundreds_of_events", "reads_right_after_a_refused_read_of_a_cut_file_with_long_payloads", "rereads_after_in_place_edit_of_the_first_result"},
+		Require: []string{"many_unknown_chunk_files", "huge_unknown_chunk_files", "reads_with_eof_delivered_with_data", "files", "feat:running_status", "feat:padded_vlq", "feat:f0_without_f7", "feat:f7_packet", "feat:unknown_meta", "feat:long_payload", "feat:alien_before", "feat:alien_between", "feat:alien_after", "feat:smpte", "decoder_crosschecks", "events_compared", "messages_classified", "pipe_reads", "reads_with_log_option", "appends_to_read_messages", "files_with_more_than_65536_events", "files_with_tracks_of_hundreds_of_events", "reads_right_after_a_refused_read_of_a_cut_file_with_long_payloads", "concurrent_reads", "rereads_after_in_place_edit_of_the_first_result"},
 		UsesCur: true,
 		Run:     runC02,
 	})
@@ -211,6 +213,22 @@ func c02Check(c *mon.Ctx, f *ref.EncFile, label string) {
 }
 
 // c02CheckLarge is the core of c02Check for files too large to carry around as hex: read, compare with the ground truth.
+// yieldingReader hands out one or a few bytes per call and yields the processor before it returns.
+type yieldingReader struct {
+	b []byte
+	p int
+}
+
+func (y *yieldingReader) Read(p []byte) (int, error) {
+	if y.p >= len(y.b) {
+		return 0, io.EOF
+	}
+	n := copy(p, y.b[y.p:])
+	y.p += n
+	runtime.Gosched()
+	return n, nil
+}
+
 func c02CheckLarge(c *mon.Ctx, f *ref.EncFile, label string) {
 	b := f.Bytes(nil)
 	truth := f.Truth()
@@ -402,6 +420,51 @@ func runC02(c *mon.Ctx) {
 		}
 		c02CheckLarge(c, f, fmt.Sprintf("many-events %d: %d tracks, %d events, %d program changes first", i, nt, total, lead))
 		c.Count("files_with_more_than_65536_events", 1)
+	})
+
+	// several files read at the same time (a program that loads a folder with one goroutine per file): every read gives
+	// what the same file gives alone. The sources yield the processor inside Read, between handing over the bytes and
+	// returning, so that the reads really interleave byte by byte.
+	c.Each("concurrent-reads", c.N(60, 3000), func(i int64, r *mon.Rand) {
+		const G = 8
+		type job struct {
+			b     []byte
+			truth *ref.File
+			got   *smf.SMF
+			err   error
+			pan   any
+		}
+		jobs := make([]*job, G)
+		for k := range jobs {
+			f := gen.SMFFile(r, gen.FileOpts{MaxTracks: 3, MaxEvents: 40, Aliens: true, PaddedVLQ: true, Running: true})
+			jobs[k] = &job{b: f.Bytes(nil), truth: f.Truth()}
+		}
+		var wg sync.WaitGroup
+		for _, j := range jobs {
+			wg.Add(1)
+			go func(j *job) {
+				defer wg.Done()
+				defer func() { j.pan = recover() }()
+				j.got, j.err = smf.ReadFrom(&yieldingReader{b: j.b})
+			}(j)
+		}
+		wg.Wait()
+		c.Count("concurrent_reads", G)
+		c.Eval(G)
+		for k, j := range jobs {
+			in := map[string]any{"case": fmt.Sprintf("concurrent-reads %d, reader %d of %d", i, k, G), "bytes": mon.Hex(head(j.b, 300)), "len": len(j.b)}
+			switch {
+			case j.pan != nil:
+				c.Violation("panic:ReadFrom", fmt.Sprintf("ReadFrom run concurrently with %d others panicked: %v", G-1, j.pan), in, "no panic", fmt.Sprint(j.pan))
+			case j.err != nil:
+				c.Violation("read-error-concurrent", fmt.Sprintf("ReadFrom of a spec-valid file run concurrently with %d other reads fails: %v", G-1, j.err), in, "value", j.err.Error())
+			default:
+				if diff := ref.EqualFiles(j.truth, fromLib(j.got)); diff != "" {
+					c.Violation("content-concurrent", fmt.Sprintf("ReadFrom run concurrently with %d other reads differs from the specification decoder: %s", G-1, diff), in, nil, nil)
+				}
+			}
+		}
+		c.DistinctBytes(jobs[0].b)
 	})
 
 	c.Each("many-unknown-chunks", c.N(3, 6), func(i int64, r *mon.Rand) {
